@@ -224,8 +224,15 @@ func c16HeldUnder(pid int, root string) (int, error) {
 // connection held all the same. Judged on the server's descriptor table; the clock only bounds the
 // wait (10 s for a 300 ms timeout, with a control connection as for the late rule).
 func c16HeldTrial(addr string, pid int, root string) c16Trial {
-	if n, err := c16HeldUnder(pid, root); err != nil || n != 0 {
-		return c16Trial{Class: "unjudged", Detail: fmt.Sprintf("descriptor table before the trial: %d below the root, err=%v", n, err)}
+	// the previous trial's connection (closed by the client on return) may still be winding down
+	for w0 := time.Now(); ; time.Sleep(20 * time.Millisecond) {
+		n, err := c16HeldUnder(pid, root)
+		if err == nil && n == 0 {
+			break
+		}
+		if err != nil || time.Since(w0) > 5*time.Second {
+			return c16Trial{Class: "unjudged", Detail: fmt.Sprintf("descriptor table before the trial: %d below the root, err=%v", n, err)}
+		}
 	}
 	c, err := wire.Dial(addr, nil, c16CutMax)
 	if err != nil {
